@@ -147,6 +147,23 @@ class Checker(object):
         import pysmt.typing as T
         mgr = env.formula_manager
         f = pool[0]
+        if kind.startswith('in_with_env:'):
+            # the failing call is made inside the library's own context
+            # manager for a temporary environment
+            from pysmt.environment import Environment
+
+            def block():
+                with Environment() as inner:
+                    inner.formula_manager.Symbol('c15_inner')
+                    r = self.failing_call(kind.split(':', 1)[1], env, ctx,
+                                          pool, rng)
+                    if r is not None and r[0] == 'exc':
+                        raise InjectedFault(r[1])
+                    return r
+            try:
+                return block()
+            except InjectedFault as e:
+                return ('exc', str(e))
         if kind == 'ill_typed_substitution':
             fv = sorted((s for s in f.get_free_variables()
                          if not s.symbol_type().is_function_type()),
@@ -225,7 +242,8 @@ class Checker(object):
              'ill_typed_construction', 'symbol_redefinition',
              'fresh_symbol_bad_type', 'bad_constant', 'hr_undefined_symbol',
              'hr_syntax_error', 'smtlib_malformed', 'smtlib_type_error',
-             'smtlib_undeclared'] + [
+             'smtlib_undeclared', 'in_with_env:ill_typed_construction',
+             'in_with_env:bad_constant', 'in_with_env:hr_syntax_error'] + [
         'failpoint:' + p for p in ('simplify', 'substitute', 'free_vars',
                                    'atoms', 'theory', 'types', 'size', 'nnf',
                                    'serialize', 'to_smtlib', 'is_qf',
@@ -337,6 +355,8 @@ class Checker(object):
                 if not pool:
                     return
                 self.probe_all(env, ctx, pool, prefix)
+                import pysmt.environment as PE
+                stack_depth = len(PE.ENVIRONMENTS_STACK)
                 if which == 'A':
                     r2 = random.Random(j * 1009 + shard)
                     failed = self.failing_call(kind, env, ctx, pool, r2)
@@ -347,9 +367,21 @@ class Checker(object):
                         rep.count('call_did_not_fail')
                         return
                     wstate = self.walker_state(env, ctx)
+                    from pysmt.environment import get_env
+                    import pysmt.environment as PE
+                    if get_env() is not env:
+                        wstate.append('the current environment is not the '
+                                      'one that was current before the call')
+                    if len(PE.ENVIRONMENTS_STACK) != stack_depth:
+                        wstate.append('the stack of environments has %d '
+                                      'entries, %d before the call' % (
+                                          len(PE.ENVIRONMENTS_STACK),
+                                          stack_depth))
                 results[which] = self.probe_all(env, ctx, pool, plan)
             finally:
-                pop_env()
+                import pysmt.environment as PE
+                while PE.ENVIRONMENTS_STACK and pop_env() is not env:
+                    pass
         rep.count('failures_injected')
         rep.count('kind_' + kind.split(':')[0])
         rep.case(key=(kind, hash(target), j),
@@ -501,6 +533,184 @@ def solver_cases(rep, rng, n):
                 break
 
 
+TEXT_FAILS = ['fault:push:unsupported', 'fault:pop:unsupported',
+              'fault:reset-assertions:unsupported', 'fault:assert:error',
+              'fault:declare-fun:error', 'fault:check-sat:error',
+              'fault:push:error', 'fault:pop:error',
+              'fault:reset-assertions:error', 'fault:assert:unsupported',
+              'pop_beyond', 'pop_beyond_2', 'assert_non_boolean',
+              'get_value_without_model', 'get_value_undeclared']
+
+
+def text_solver_cases(rep, rng, n):
+    """A failing call on a solver driven through the textual interface: twin
+    SmtLibSolver objects, each over a reference solver process of its own
+    (vf/refsolver.py, strict); one twin sees a call that fails - because the
+    solver answers 'unsupported' / an error to one command (armed through
+    the process's one-shot fault file), or because the call is illegal."""
+    import json
+    import os
+    import pysmt.logics as L
+    import pysmt.typing as T
+    from .c17 import PY, REFSOLVER, logdir
+    for j in range(n):
+        if rep.out_of_time():
+            break
+        kind = TEXT_FAILS[(j + rep.shard) % len(TEXT_FAILS)]
+        ops = ['assert', 'assert', 'push', 'pop', 'solve', 'assert_new',
+               'reset', 'push2']
+        plan = [rng.choice(ops) for _ in range(rng.randint(1, 7))]
+        after = [rng.choice(ops + ['get_value', 'solve', 'pop', 'assert_new'])
+                 for _ in range(rng.randint(4, 9))] + ['solve']
+        at = rng.randrange(len(plan) + 1)
+        res = {}
+        failed = None
+        for which in ('A', 'B'):
+            env = common.fresh_env()
+            mgr = env.formula_manager
+            fault = os.path.join(logdir(), 'fault_%d_%d_%d_%s.json' % (
+                os.getpid(), rep.shard, j, which))
+            if os.path.exists(fault):
+                os.unlink(fault)
+            name = 'c15t%d%s' % (j, which)
+            env.factory.add_generic_solver(
+                name, [PY, REFSOLVER, '--name', name, '--fault', fault],
+                list(L.PYSMT_LOGICS))
+            solver = env.factory.Solver(name=name, logic=L.QF_BV)
+            syms = [mgr.Symbol('t%d' % i) for i in range(6)]
+            bvs = [mgr.Symbol('w%d' % i, T.BVType(2)) for i in range(3)]
+            depth = [0]
+            k = [0]
+            nnew = [0]
+            sat = [False]
+
+            def do(op):
+                k[0] += 1
+                a, b = syms[k[0] % 6], syms[(k[0] * 5 + 1) % 6]
+                if op not in ('get_value',):
+                    was_sat, sat[0] = sat[0], False
+                if op == 'assert':
+                    solver.add_assertion(mgr.Or(a, mgr.Not(b)))
+                elif op == 'assert_new':
+                    # a symbol first used at this level
+                    nnew[0] += 1
+                    x = mgr.Symbol('n%d' % nnew[0], T.BVType(2))
+                    solver.add_assertion(mgr.BVULE(x, bvs[k[0] % 3]))
+                elif op in ('push', 'push2'):
+                    lv = 2 if op == 'push2' else 1
+                    solver.push(lv)
+                    depth[0] += lv
+                elif op == 'pop':
+                    if depth[0] > 0:
+                        solver.pop()
+                        depth[0] -= 1
+                elif op == 'reset':
+                    solver.reset_assertions()
+                    depth[0] = 0
+                elif op == 'solve':
+                    r = solver.solve()
+                    sat[0] = bool(r)
+                    return r
+                elif op == 'get_value':
+                    if sat[0]:
+                        # (the value itself may legitimately depend on the
+                        # order of the declarations)
+                        return solver.get_value(a).is_constant()
+                return None
+
+            def fail():
+                if kind.startswith('fault:'):
+                    _, head, reply = kind.split(':')
+                    call = {'push': lambda: solver.push(),
+                            'pop': lambda: solver.pop(),
+                            'reset-assertions':
+                            lambda: solver.reset_assertions(),
+                            'assert': lambda: solver.add_assertion(
+                                mgr.Or(syms[0], syms[3])),
+                            'declare-fun': lambda: solver.add_assertion(
+                                mgr.Symbol('c15_never_declared')),
+                            'check-sat': lambda: solver.solve()}[head]
+                    if head == 'pop' and depth[0] == 0:
+                        return None
+                    with open(fault, 'w') as f:
+                        json.dump({'head': head, 'reply': 'unsupported'
+                                   if reply == 'unsupported' else
+                                   '(error "injected")'}, f)
+                    try:
+                        o = outcome(call)
+                    finally:
+                        fired = not os.path.exists(fault)
+                        if not fired:
+                            os.unlink(fault)
+                    if not fired:
+                        return None
+                    return o
+                if kind == 'pop_beyond':
+                    return outcome(lambda: solver.pop(depth[0] + 1))
+                if kind == 'pop_beyond_2':
+                    return outcome(lambda: solver.pop(depth[0] + 2))
+                if kind == 'assert_non_boolean':
+                    return outcome(lambda: solver.add_assertion(bvs[0]))
+                if kind == 'get_value_without_model':
+                    if sat[0]:
+                        return None
+                    return outcome(lambda: solver.get_value(syms[0]))
+                if kind == 'get_value_undeclared':
+                    if not sat[0]:
+                        return None
+                    return outcome(lambda: solver.get_value(
+                        mgr.Symbol('c15_nobody_declared')))
+                raise ValueError(kind)
+            out = []
+            try:
+                for i, op in enumerate(plan):
+                    if i == at and which == 'A':
+                        failed = fail()
+                        sat[0] = False
+                    elif i == at:
+                        sat[0] = False
+                    outcome(lambda: do(op))
+                if at == len(plan):
+                    if which == 'A':
+                        failed = fail()
+                    sat[0] = False
+                for op in after:
+                    o = outcome(lambda: do(op))
+                    out.append((op, o if o[0] == 'exc' else
+                                ('ok', repr(o[1]))))
+            finally:
+                try:
+                    solver.exit()
+                except Exception:
+                    pass
+                try:
+                    solver.solver.wait(timeout=5)
+                except Exception:
+                    pass
+            res[which] = out
+            if which == 'A' and (failed is None or failed[0] != 'exc'):
+                break
+        if failed is None or failed[0] != 'exc':
+            rep.count('call_did_not_fail')
+            continue
+        rep.count('failures_injected')
+        rep.count('text_solver_failures_injected')
+        rep.count('kind_text_solver_' + kind.replace(':', '_'))
+        rep.case(key=('textsolver', kind, j, rep.shard))
+        for pa, pb in zip(res['A'], res['B']):
+            rep.count('probes_compared')
+            if pa != pb:
+                rep.violation(
+                    '%s/trace/text-solver/%s/%s' % (PROP, kind, pa[0]),
+                    'after a failing call (%s: %s) on a text-interface '
+                    'solver: %s gives %s; without the failing call %s '
+                    '(prefix %s, at %d, then %s)' % (
+                        kind, failed[1], pa[0], pa[1], pb[1], plan, at,
+                        after),
+                    {'kind': kind, 'plan': plan, 'after': after, 'at': at})
+                break
+
+
 def _solver_fail(kind, solver, env, mgr):
     import pysmt.typing as T
     from pysmt.environment import Environment
@@ -631,6 +841,10 @@ def run(rep):
     if not rep.only or rep.only == 'solver':
         solver_cases(rep, random.Random(rep.seed * 31 + rep.shard),
                      150 if rep.tier == 'quick' else 20000)
+    rep.share(0.5)
+    if not rep.only or rep.only == 'text':
+        text_solver_cases(rep, random.Random(rep.seed * 37 + rep.shard + 1),
+                          30 if rep.tier == 'quick' else 3000)
     rep.share(1.0)
     ck = Checker(rep)
     n = 400 if rep.tier == 'quick' else 30000
